@@ -370,6 +370,10 @@ def run(tier):
                          len(pool.lists), len(pool.calls)))
     if cases:
         v.sample({"history": cases[0].ops[:6], "out": [canon(x)[:100] for x in cases[0].out[:6]]})
+    v.notes.append("found by this search on the tree as received and repaired since: F7 (errorCount not reset by compileString: "
+                   "`lou_compileString(list, \"include x\")` failed after any earlier failed compilation or refused rule; /repo "
+                   "e4431d5a) — see theorem compileString_needs_counter_reset; F3 and F11 (design phase) are fixed as well: the "
+                   "twin tables tw1/tw2 and the shared cell strings re-find F3 when its static cache is put back")
     v.assumptions += ["log counters (e=, w=) are not results; non-terminating calls (tick budget) are left to C03",
                       "lou_compileString on the same list is part of the reference (C15 decides what it should do)"]
     return v.finish()
